@@ -326,6 +326,12 @@ def _lease_tables(ctx):
                   what="valid iff stored deadline > now_ms%s" % (" and stored term == current_term (16 bit)" if term_idx else ""))
     up = F.try_method("ReadLease", "unpack")
     pk = F.try_method("ReadLease", "pack")
+    # fail closed when the packed representation is renamed: if the lease still keeps term and deadline in ONE atomic word
+    # (a single AtomicU64 field), the pack / unpack pair must be found
+    rl = [a for p_, a in F.adts.items() if p_.endswith("read_lease::ReadLease") or p_.endswith("::ReadLease")]
+    n_atomic = sum(1 for a in rl for v in a["variants"] for (_n, t) in v["fields"] if "AtomicU64" in t or "Atomic<u64>" in t)
+    if n_atomic == 1:
+        ctx.floor("C12-d", (1 if up else 0) + (1 if pk else 0), 2, "ReadLease::pack / ReadLease::unpack (single-word lease representation)")
     if up:
         paths = table_of(ctx, "C12-d", up, "ReadLease::unpack")
         if paths:
